@@ -213,13 +213,13 @@ def gen_nondiv(ctx, idx):
 
 def gen_cases(ctx):
     cases = []
-    for i in range(ctx.scale(110, 1200)):
+    for i in range(ctx.scale(240, 2400)):
         cases.append(gen_net(ctx, i))
-    for i in range(ctx.scale(30, 300)):
+    for i in range(ctx.scale(50, 500)):
         cases.append(gen_uniq(ctx, i))
-    for i in range(ctx.scale(250, 2500)):
+    for i in range(ctx.scale(400, 4000)):
         cases.append(gen_lin(ctx, i))
-    for i in range(ctx.scale(60, 600)):
+    for i in range(ctx.scale(80, 800)):
         cases.append(gen_mesh(ctx, i))
     for i in range(ctx.scale(40, 400)):
         cases.append(gen_nondiv(ctx, i))
